@@ -5,10 +5,12 @@ CHECKS = {
     "C03": ("worlds.w1_engine", "get_check"),
     "C04": ("worlds.w1_engine", "get_check"),
     "C05": ("worlds.w1_specs", "get_check"),
+    "C06": ("worlds.w2_collect", "get_check"),
     "C07": ("worlds.w4_filters", "get_check"),
     "C08": ("worlds.w3_cleaner", "get_check"),
     "C09": ("worlds.w3_cleaner", "get_check"),
     "C10": ("worlds.w3_cleaner", "get_check"),
+    "C11": ("worlds.w2_collect", "get_check"),
     "C12": ("worlds.w1_rules", "get_check"),
     "C17": ("worlds.w5_clientstate", "get_check"),
 }
